@@ -211,6 +211,11 @@ class C04:
                                 "fault.other_end_after_arrival")}
         items = [SimItem(i, lo, hi, f, [tuple(p) for p in plan] or [(2, 1)], stats)
                  for i, ((lo, hi, f), plan) in enumerate(zip(case["items"], case["plans"]))]
+        # the site of a container session names its ROLE, not its class (a rename must not change a verdict); it is
+        # known from the case, BEFORE the container exists: steps a constructor takes belong to the same role
+        role = ("matcher" if case["kind"] == "matcher" else
+                "search+initial_bounds" if case.get("init") is not None else "search")
+        mon.default_site = role
         if case["kind"] == "matcher":
             rows, cols = case["rows"], case["cols"]
             table = [[items[r * cols + c] for c in range(cols)] for r in range(rows)]
@@ -231,10 +236,7 @@ class C04:
             obj = gsearch.IterativeTighteningSearch(iter(items), initial_bounds=init)
             counters["probe.search_session"] = 1
             ops = ["T", "T", "T", "B", "G", "M"]
-        # the site of a container session names its ROLE, not its class (a rename must not change a verdict)
-        mon.site_of[id(obj)] = ("matcher" if case["kind"] == "matcher" else
-                                "search+initial_bounds" if case.get("init") is not None else "search")
-        mon.default_site = mon.site_of[id(obj)]   # helper objects the container creates belong to the same role
+        mon.site_of[id(obj)] = role
         self._container_obj = obj
         for step, (oi, arg) in enumerate(case["schedule"]):
             op = ops[oi % len(ops)]
